@@ -738,8 +738,10 @@ func checkAndPropagateArgsForUnionWithReturnT(
 			return nil, err
 		}
 
+		// the accumulated return type is a copy: the method types looked up
+		// from the frame are shared and must keep their declared return type
 		if returnT == nil {
-			returnT = methodTs[idx]
+			returnT = methodTs[idx].DeepCopy()
 
 			continue
 		}
@@ -751,9 +753,10 @@ func checkAndPropagateArgsForUnionWithReturnT(
 		}
 
 		if methodTs[idx].IsUnionType() {
-			methodTs[idx].AppendVariant(*returnT)
+			unionT := methodTs[idx].DeepCopy()
+			unionT.AppendVariant(*returnT)
 
-			returnT = base.MakeUnion(methodTs[idx].GetVariants())
+			returnT = base.MakeUnion(unionT.GetVariants())
 
 			continue
 		}
